@@ -393,10 +393,14 @@ impl BuiltInFunction {
 
                 let view = v.0.borrow();
 
-                let result = view.iter().enumerate().find(|(_, x)| {
-                    x.equals(primitive)
-                        .expect("the compiler allowed an illegal type comparison")
-                });
+                let mut result = None;
+
+                for (index, x) in view.iter().enumerate() {
+                    if x.equals(primitive).context("index_of: the elements cannot be compared")? {
+                        result = Some((index, x));
+                        break;
+                    }
+                }
 
                 if let Some((result, _)) = result {
                     Ok((
